@@ -37,7 +37,7 @@ type plannedSet struct {
 	set     *sampleSet
 	info    *setInfo
 	rng     *hx.Rng
-	variant int // 0 memtable only, 1 flushed, 2 first half flushed + second half in the memtable
+	variant int // 0 memtable only, 1 flushed, 2 first half flushed + second half in the memtable, 3 two flushes + memtable
 	db      string
 	up      *upstream
 }
@@ -103,7 +103,8 @@ func Run(c *hx.Ctx) error {
 			sr := r.Fork()
 			big := c.Tier == "thorough" && sr.Chance(6)
 			set, info := genSet(sr, big)
-			ps := &plannedSet{id: nextID, set: set, info: info, rng: sr, variant: sr.Intn(3), db: fmt.Sprintf("c18s%d", nextID)}
+			ps := &plannedSet{id: nextID, set: set, info: info, rng: sr, variant: sr.Intn(4), db: fmt.Sprintf("c18s%d", nextID)}
+			set.cuts = set.cutPoints(ps.variant)
 			nextID++
 			planned += perSet
 			if only >= 0 && ps.id != only {
@@ -142,7 +143,7 @@ func Run(c *hx.Ctx) error {
 		for _, ps := range batch {
 			ns, np := ps.set.counts()
 			c.Emit(ps.set.opLine(ps.id), fmt.Sprintf("ok %d %d", ns, np))
-			c.Count(fmt.Sprintf("layout:%s", []string{"memtable", "flushed", "split"}[ps.variant]))
+			c.Count(fmt.Sprintf("layout:%s", []string{"memtable", "flushed", "split", "two-files+memtable"}[ps.variant]))
 			g := &exprGen{r: ps.rng, info: ps.info, set: ps.set}
 			for k := 0; k < perSet && cases < n; k++ {
 				// 80 % of the cases keep clear of the triggers of the known findings (matchers, queries
@@ -261,45 +262,43 @@ func loadBatch(srv *ogServer, batch []*plannedSet) error {
 	}); err != nil {
 		return err
 	}
-	needFlush := false
-	if err := par(func(ps *plannedSet) error {
-		a, _ := ps.set.split(ps.variant)
-		if a == nil {
-			return nil
+	// three write phases; a flush (server-wide) after the first and after the second
+	for phase := 0; phase < 3; phase++ {
+		wrote := false
+		for _, ps := range batch {
+			if ps.set.parts(ps.variant)[phase] != nil {
+				wrote = true
+			}
 		}
-		needFlush = true
-		if err := srv.remoteWrite(ps.db, a); err != nil {
+		if err := par(func(ps *plannedSet) error {
+			part := ps.set.parts(ps.variant)[phase]
+			if part == nil {
+				return nil
+			}
+			return srv.remoteWrite(ps.db, part)
+		}); err != nil {
 			return err
 		}
-		return srv.waitVisible(ps.db, a)
-	}); err != nil {
-		return err
-	}
-	if needFlush {
-		if err := srv.flush(); err != nil {
-			return err
+		if phase < 2 && wrote {
+			if err := par(func(ps *plannedSet) error {
+				acc := ps.set.upTo(ps.variant, phase)
+				if acc == nil {
+					return nil
+				}
+				return srv.waitVisible(ps.db, acc)
+			}); err != nil {
+				return err
+			}
+			if err := srv.flush(); err != nil {
+				return err
+			}
 		}
-	}
-	if err := par(func(ps *plannedSet) error {
-		_, b := ps.set.split(ps.variant)
-		if b == nil {
-			return nil
-		}
-		return srv.remoteWrite(ps.db, b)
-	}); err != nil {
-		return err
 	}
 	return par(func(ps *plannedSet) error { return srv.waitVisible(ps.db, ps.set) })
 }
 
-// split: the part of the set written before the flush and the part written after it.
-func (s *sampleSet) split(variant int) (a, b *sampleSet) {
-	switch variant {
-	case 0:
-		return nil, s
-	case 1:
-		return s, nil
-	}
+// cutPoints: the time bounds of the flushed parts (variant 2: the middle; variant 3: the thirds).
+func (s *sampleSet) cutPoints(variant int) []int64 {
 	var lo, hi int64
 	first := true
 	for _, sr := range s.series {
@@ -313,31 +312,60 @@ func (s *sampleSet) split(variant int) (a, b *sampleSet) {
 			first = false
 		}
 	}
-	mid := lo + (hi-lo)/2
-	a, b = &sampleSet{}, &sampleSet{}
+	switch variant {
+	case 2:
+		return []int64{lo + (hi-lo)/2}
+	case 3:
+		return []int64{lo + (hi-lo)/3, lo + 2*(hi-lo)/3}
+	}
+	return nil
+}
+
+func (s *sampleSet) between(lo, hi int64) *sampleSet {
+	out := &sampleSet{}
 	for _, sr := range s.series {
-		sa, sb := series{labels: sr.labels}, series{labels: sr.labels}
+		ps := series{labels: sr.labels}
 		for _, p := range sr.points {
-			if p.t <= mid {
-				sa.points = append(sa.points, p)
-			} else {
-				sb.points = append(sb.points, p)
+			if p.t > lo && p.t <= hi {
+				ps.points = append(ps.points, p)
 			}
 		}
-		if len(sa.points) > 0 {
-			a.series = append(a.series, sa)
-		}
-		if len(sb.points) > 0 {
-			b.series = append(b.series, sb)
+		if len(ps.points) > 0 {
+			out.series = append(out.series, ps)
 		}
 	}
-	if len(a.series) == 0 {
-		a = nil
+	if len(out.series) == 0 {
+		return nil
 	}
-	if len(b.series) == 0 {
-		b = nil
+	return out
+}
+
+// parts: what is written in each of the three phases (nil = nothing).
+func (s *sampleSet) parts(variant int) [3]*sampleSet {
+	const min, max = int64(-1 << 62), int64(1 << 62)
+	switch variant {
+	case 0:
+		return [3]*sampleSet{nil, nil, s}
+	case 1:
+		return [3]*sampleSet{s, nil, nil}
+	case 2:
+		return [3]*sampleSet{s.between(min, s.cuts[0]), nil, s.between(s.cuts[0], max)}
 	}
-	return a, b
+	return [3]*sampleSet{s.between(min, s.cuts[0]), s.between(s.cuts[0], s.cuts[1]), s.between(s.cuts[1], max)}
+}
+
+// upTo: everything written up to and including the phase.
+func (s *sampleSet) upTo(variant, phase int) *sampleSet {
+	const min, max = int64(-1 << 62), int64(1 << 62)
+	switch {
+	case variant == 1:
+		return s
+	case variant == 2 || (variant == 3 && phase == 0):
+		return s.between(min, s.cuts[0])
+	case variant == 3:
+		return s.between(min, s.cuts[1])
+	}
+	return nil
 }
 
 func topKind(e expr) string {
